@@ -213,6 +213,10 @@ func (f *simFetcher) FetchContents(fileReadMonitorFactory virtual.FileReadMonito
 	if f.spec.fetched {
 		e.k.Violate(e.prop+"/fetch-after-success", "FetchContents was called again on a directory whose contents had already been fetched successfully")
 	}
+	if e.parkFetch && !e.k.IsController() {
+		e.k.Yield("fetch")
+		e.k.Yield("fetch")
+	}
 	if e.inject(faultFetch) {
 		f.spec.failures++
 		return nil, errFetch
